@@ -271,6 +271,7 @@ def run(ctx):
                            oset, desc={"grid": [2, 3], "k": 2, "allow_empty": allow}, kind="int", dom=(0, 1))
     if thorough and ctx.shard < 2:
         allow = bool(ctx.shard)
+        edges = G.grid_edges(3, 3)  # (the stages above re-use the name)
         oset = {p for p in itertools.product(range(2), repeat=9) if G.classes_connected(9, edges, p, 2, allow)}
         D.accepted_set(ctx, "div", 9, lambda s, vs: graph.division_connected(s, IntArray2D(vs, (3, 3)), 2, allow_empty_group=allow),
                        oset, desc={"grid": [3, 3], "k": 2, "allow_empty": allow}, kind="int", dom=(0, 1))
